@@ -48,6 +48,7 @@ class Contract:
     cover: bool = True
     timeout_ms: int | None = None
     verify_paths_limit: int = 4000
+    ghost_params: dict = dataclasses.field(default_factory=dict)  # extra symbolic (ghost) inputs: name -> type
     assigns: dict = dataclasses.field(default_factory=dict)     # "self.f" -> spec expr: field holds exactly that value (reference) on return
     mode: str = "A"                 # A functional, B object invariant, C effect discipline
     options: dict = dataclasses.field(default_factory=dict)
